@@ -380,20 +380,6 @@ Section Num.
   Qed.
 End Num.
 
-(** the decimal numerals [dec_N] prints are canonical: no leading zero *)
-Lemma udigits_nonzero_head f : forall n, 0 < n -> n < 2 ^ N.of_nat f ->
-  exists c t, udigits (S f) n = c :: t /\ c <> 48.
-Proof.
-  induction f as [|f IH]; intros n P Hn.
-  - change (N.of_nat 0) with 0 in Hn. rewrite N.pow_0_r in Hn. lia.
-  - rewrite (udigits_S (S f)). destruct (N.ltb_spec n 10) as [L|L].
-    + exists (48 + n), []. split; [reflexivity|lia].
-    + assert (Hd : n / 10 < 2 ^ N.of_nat f).
-      { apply N.div_lt_upper_bound; [lia|]. rewrite Nat2N.inj_succ, N.pow_succ_r' in Hn. lia. }
-      assert (Pd : 0 < n / 10) by (apply N.div_str_pos; lia).
-      destruct (IH _ Pd Hd) as (c & t & E & NZ). rewrite E. exists c, (t ++ [48 + n mod 10]). auto.
-Qed.
-
 Lemma int_body_dec_N n : int_body (dec_N n) = true.
 Proof.
   destruct (dec_N_spec n) as (_ & D & NE).
